@@ -159,7 +159,51 @@ def summarise(I, n, it, st):
                 acc_lo = dict(summary.get("accumulators", {}))
                 summary["accumulators"] = {k: mk_pv(c, acc_hi[k], acc_lo[k]) for k in acc_hi if k in acc_lo}
                 return {k: mk_pv(c, hi[k], lo[k]) for k in newmap}
+        # ---- running means (Welford): m' = m + (v - m)/(j + 1) over j = 0..count-1 from m = 0 is the mean of v; a sum of (v - m)(v - m') alongside it
+        #      is the sum of squared deviations from the final mean (lemma L24); any other use of m is expressed through m(j) = sum_{u<j} v(u) / max(j, 1)
+        means = {}
+        if not is_while and isinstance(value, X) and value.eq(X.var(ivar)):
+            for nm, (en, pre) in entry.items():
+                new = newmap.get(nm)
+                if not isinstance(new, X) or to_x(pre) is None or not to_x(pre).iszero(): continue
+                try:
+                    b0 = new.subst({en: X.const(0)})
+                    a0 = new.subst({en: X.const(1)}) - b0
+                    if not (b0 + a0 * X.var(en)).eq(new): continue
+                    if (a0.fv() | b0.fv()) & entry_names: continue
+                    jv = X.var(ivar)
+                    if not a0.eq(jv / (jv + 1)): continue
+                    v_ = b0 * (jv + 1)                       # the sample averaged at step j
+                    u_ = fresh("u")
+                    at_j = mk_sum(u_, jv, v_.subst({ivar: X.var(u_)})) / mk_fn("max", [jv, X.const(1)], "pos")
+                    fin = mk_sum(ivar, count, v_) / count
+                    means[nm] = (en, v_, at_j, fin, new)
+                except Unknown:
+                    continue
+        if means:
+            sub_at = {en: at_j for (en, v_, at_j, fin, new) in means.values()}
+            for nm in list(newmap):
+                if nm in means or nm not in entry: continue
+                new = newmap.get(nm)
+                if not isinstance(new, X) or not (new.fv() & set(sub_at)): continue
+                en_self = entry[nm][0]
+                try:
+                    inc = new - X.var(en_self)
+                    if en_self in inc.fv(): continue
+                    done = False
+                    for mn, (en_m, v_, at_j, fin, new_m) in means.items():
+                        if inc.eq((v_ - X.var(en_m)) * (v_ - new_m)):
+                            # Welford: sum_j (v_j - m_{j-1})(v_j - m_j) = sum_j (v_j - mean)^2
+                            newmap = dict(newmap); newmap[nm] = X.var(en_self) + (v_ - fin) * (v_ - fin); done = True; break
+                    if not done:
+                        newmap = dict(newmap); newmap[nm] = X.var(en_self) + inc.subst(sub_at)
+                except Unknown:
+                    continue
         for nm, (en, pre) in entry.items():
+            if nm in means:
+                final[nm] = means[nm][3]
+                summary.setdefault("running_means", {})[nm] = means[nm][2]
+                continue
             new = newmap.get(nm)
             fe = _fv(new) & entry_names
             if new is None or is_opaque(new):
@@ -215,6 +259,8 @@ def summarise(I, n, it, st):
     #      any other loop-carried value becomes an (unknown) function of the iteration index
     remap = {}
     for nm, (en, pre) in entry.items():
+        if nm in summary.get("running_means", {}):
+            remap[en] = summary["running_means"][nm]; continue
         acc = summary.get("accumulators", {}).get(nm)
         if acc is not None and not is_while and to_x(pre) is not None and not (_fv(acc) & entry_names):
             u = fresh("u")
